@@ -92,6 +92,7 @@ type Ctx struct {
 	frontier   map[string]string // heap version -> allocation frontier when it was created
 	frameOn      bool
 	frameAllowed map[string][]string
+	frameAllowedCond map[string][][2]string
 	frameWhole   map[string]bool
 }
 
